@@ -56,12 +56,16 @@ DecodeH5(fl) ==
     cbits |-> TRUE]      \* region corner arrays bit-identical, same dtype
 
 (* ---- the legacy layout (before the file version attribute): corners, n, dim, array --- *)
-LegacyOf(f, side) ==
-   [layout |-> "legacy", p1 |-> f.lo, p2 |-> HiOf(f), ptag |-> f.rtag, n |-> f.n, dim |-> f.nv,
+(* p1, p2 are the two corner points the user gave, stored as given: ANY pair of opposite corners (sw = the axes along which *)
+(* p1 holds the upper and p2 the lower coordinate); the reader has to sort them                                              *)
+LegacyOf(f, side, sw) ==
+   [layout |-> "legacy", p1 |-> [d \in 1 .. Len(f.n) |-> IF d \in sw THEN HiOf(f)[d] ELSE f.lo[d]],
+    p2 |-> [d \in 1 .. Len(f.n) |-> IF d \in sw THEN f.lo[d] ELSE HiOf(f)[d]], sw |-> sw, ptag |-> f.rtag, n |-> f.n, dim |-> f.nv,
     array |-> [kind |-> f.kind, shape |-> f.n \o <<f.nv>>, data |-> f.vals],
     side |-> IF side THEN f.subs ELSE <<>>]
 DecodeLegacy(fl) ==
-   [lo |-> fl.p1, hi |-> fl.p2, n |-> fl.n, nv |-> fl.dim, kind |-> KindClass(fl.array.kind), vals |-> fl.array.data,
+   [lo |-> [d \in DOMAIN fl.p1 |-> IF fl.p1[d] <= fl.p2[d] THEN fl.p1[d] ELSE fl.p2[d]],
+    hi |-> [d \in DOMAIN fl.p1 |-> IF fl.p1[d] <= fl.p2[d] THEN fl.p2[d] ELSE fl.p1[d]], n |-> fl.n, nv |-> fl.dim, kind |-> KindClass(fl.array.kind), vals |-> fl.array.data,
     subs |-> [k \in DOMAIN fl.side |-> [name |-> fl.side[k].name, lo |-> fl.side[k].lo, hi |-> fl.side[k].hi]]]
 ReadResult(fl) == IF fl.layout = "0.1" THEN Ok(DecodeH5(fl)) ELSE Ok(DecodeLegacy(fl))
 
@@ -132,10 +136,10 @@ OverwriteH5 == /\ act[1] = "new"
                /\ obs' = [st |-> "written"]
                /\ UNCHANGED fld
 (* an independent h5py writer of the old layout, with or without the side-car *)
-LegacyWrite == \E side \in BOOLEAN :
+LegacyWrite == \E side \in BOOLEAN, sw \in {{}, {1}, 1 .. Len(fld.n)} :
                /\ act[1] = "new"
                /\ side => fld.subs # <<>>
-               /\ file' = LegacyOf(fld, side)
+               /\ file' = LegacyOf(fld, side, sw)
                /\ act' = <<"legacy", side>>
                /\ obs' = [st |-> "written"]
                /\ UNCHANGED fld
